@@ -68,6 +68,14 @@ pub fn run(ctx: &mut Ctx) {
         // a string whose 16-byte chunk ends in 0xff-like high byte sequence: unicode U+00FF (c3 bf)
         let mut uf = base.clone(); uf.push('ÿ'); pool.push(uf);
     }
+    // dashes behind an HTTP_ prefix (the header conversion maps `-` to `_`; NO constructor of a name does): spellings of interned and
+    // free HTTP_ names with one or all `_` after the prefix written as `-`, in upper, lower and mixed case
+    for n in names.iter().filter(|n| n.starts_with("HTTP_")).take(ctx.n(12, 200) as usize) {
+        let tail = &n[5..];
+        let all = format!("HTTP_{}", tail.replace('_', "-")); let one = format!("HTTP_{}", tail.replacen('_', "-", 1));
+        for v in [all, one, format!("HTTP-{tail}")] { if !names.contains(&v) { pool.push(v.clone()); pool.push(v.to_ascii_lowercase()); pool.push(mixed(&v, &mut rng)); } }
+    }
+    for v in ["http_x-real-ip", "HTTP_X-REAL-IP", "HTTP_X_REAL_IP", "Http_X-Id", "HTTP_X_ID", "HTTP_-", "HTTP_-_", "X-HTTP_A-B", "HTTPS_A-B"] { pool.push(v.into()); }
     let nsample = ctx.n(40, names.len() as u64) as usize;
     // near misses of interned names: one `_`-separated token removed / doubled (an alias slipped into the interning table would equate
     // such a name with a different interned one)
